@@ -11,16 +11,16 @@ from props import router_run
 
 
 def document_witness(chk):
-    eps = [{'id': 'get_a', 'method': 'GET', 'path': '/a', 'versions': {'k': 'FromUntil', 'a': '1.0.0', 'b': '2.0.0'}},
+    eps = [{'id': 'get_a', 'method': 'GET', 'path': '/a', 'versions': {'k': 'FromUntil', 'a': '1.0.0', 'b': '2.0.0'}, 'tags': ['Widgets']},
            {'id': 'get_a_v2', 'method': 'GET', 'path': '/a', 'versions': {'k': 'From', 'a': '2.0.0'}},
-           {'id': 'put_a', 'method': 'PUT', 'path': '/a', 'versions': {'k': 'All'}},
+           {'id': 'put_a', 'method': 'PUT', 'path': '/a', 'versions': {'k': 'All'}, 'tags': ['widgets', 'zeta']},
            {'id': 'get_b_hidden', 'method': 'GET', 'path': '/b', 'versions': {'k': 'From', 'a': '1.0.0'}, 'visible': False},
            {'id': 'get_a_b', 'method': 'GET', 'path': '/a/b', 'versions': {'k': 'Until', 'b': '1.5.0'}},
            {'id': 'get_root', 'method': 'GET', 'path': '/', 'versions': {'k': 'FromUntil', 'a': '1.5.0', 'b': '1.5.0'}},
            # every method the document format has a slot for, on one path
            {'id': 'head_m', 'method': 'HEAD', 'path': '/m', 'versions': {'k': 'All'}}, {'id': 'options_m', 'method': 'OPTIONS', 'path': '/m', 'versions': {'k': 'From', 'a': '1.0.0'}},
            {'id': 'patch_m', 'method': 'PATCH', 'path': '/m', 'versions': {'k': 'All'}}, {'id': 'delete_m', 'method': 'DELETE', 'path': '/m', 'versions': {'k': 'Until', 'b': '2.0.0'}},
-           {'id': 'post_m', 'method': 'POST', 'path': '/m', 'versions': {'k': 'All'}}, {'id': 'get_m', 'method': 'GET', 'path': '/m', 'versions': {'k': 'All'}},
+           {'id': 'post_m', 'method': 'POST', 'path': '/m', 'versions': {'k': 'All'}}, {'id': 'get_m', 'method': 'GET', 'path': '/m', 'versions': {'k': 'All'}, 'tags': ['widgetS', 'Alpha', 'alpha']},
            {'id': 'put_m', 'method': 'PUT', 'path': '/m', 'versions': {'k': 'All'}}]
     import random
     rnd = random.Random(20261003)
@@ -28,7 +28,7 @@ def document_witness(chk):
     for _ in range(18):
         o = list(range(len(eps))); rnd.shuffle(o); orders.append(o)
     versions = ['0.9.0', '1.0.0', '1.4.9', '1.5.0', '1.5.1', '2.0.0-rc.1', '2.0.0', '3.0.0']
-    case = {'op': 'openapi', 'endpoints': eps, 'orders': orders, 'versions': versions}
+    case = {'op': 'openapi', 'endpoints': eps, 'orders': orders, 'versions': versions, 'tag_config': ['Zoo', 'zoo', 'widgets']}
     r = replay([case])[0]
     chk.replayed += 1
     import re
@@ -121,9 +121,83 @@ def document_version_flow(chk):
         ex.models = saved
 
 
+def tag_order(chk):
+    """identical bytes on every generation: the document's `tags` array is collected from hash containers (fresh random iteration order on
+    every call) and made stable only by the sort in gen_openapi.  That sort's comparator / key function, taken from the MIR, must order
+    distinct tag names strictly: no two different names compare equal, and the comparison is antisymmetric and transitive."""
+    import glob, os, re
+    import z3
+    from mirsym import mir
+    from mirsym.core import Cell, Closure, PMap, Ref, SB, Unsupported, dv
+    from mirsym.models import val_eq
+    from mirsym.runner import Inconclusive, REPO
+    from props import strmodel
+    ex = router_run.G['ex']
+    f = ex.fns
+    F_gen = mir.find(f, r'api_description::<impl at [^>]*>::gen_openapi$')
+    lock = open(os.path.join(REPO, 'Cargo.lock')).read()
+    for ver in re.findall(r'name = "openapiv3"\nversion = "([^"]+)"', lock):
+        for p_ in glob.glob(os.path.expanduser(f'~/.cargo/registry/src/*/openapiv3-{ver}/src/tag.rs')): ex.L.add_source(p_, only={'Tag'})
+    sorts = re.findall(r'impl \[(?:openapiv3::)?Tag\]>::(sort\w*)::<.*?\{closure@([^}]*)\}', f[F_gen].text)
+    def native(names, what):
+        eps = [{'id': f'op{i}', 'method': 'GET', 'path': f'/t{i}', 'versions': {'k': 'All'}, 'tags': [n_]} for i, n_ in enumerate(names)]
+        case = {'op': 'openapi', 'endpoints': eps, 'orders': [list(range(len(eps))), list(range(len(eps)))[::-1]] * 8, 'versions': ['1.0.0', '2.0.0']}
+        nat = replay([case])[0]
+        chk.counterexample(f'{what}; native: documents for endpoints tagged {names}: same_twice={nat.get("same_twice")} same_across_orders={nat.get("same_across_orders")} '
+                           f'tags={(nat.get("per_version") or [{}])[0].get("tags")}', case, not (nat.get('same_twice') and nat.get('same_across_orders')), role='tag-order')
+    if not sorts:
+        native(['Widgets', 'widgets', 'alpha', 'Alpha'], 'gen_openapi no longer sorts the tags it collects from hash containers')
+        if not chk.violations: raise Inconclusive('gen_openapi: no sort of the tag list found in the MIR, and the native documents are stable')
+        return
+    saved = ex.models
+    ex.models = [m for m in strmodel.MODELS if 'lowercase' in m[0] or 'uppercase' in m[0]] + ex.models
+    def tag(name): return ex.mk_struct('Tag', name=name, description=ex.none(), external_docs=ex.none(), extensions=PMap())
+    def text(m, bs): return bytes(m.eval(b, model_completion=True).as_long() for b in bs).decode('latin1')
+    try:
+        for kind, span in sorts:
+            clo = Closure(ex.closure_by_span(span), [])
+            by_key = 'key' in kind
+            for lens in [(1, 1, 1), (2, 2, 2), (1, 2, 2), (2, 1, 3), (3, 3, 3)]:
+                names = [[z3.BitVec(f'tag{i}_{j}', 8) for j in range(n)] for i, n in enumerate(lens)]
+                assume = [z3.And(z3.UGE(b, 0x20), z3.ULE(b, 0x7e)) for n in names for b in n]
+                A, B_, C = [SB(n) for n in names]
+                if by_key:
+                    def h(ex): return [ex.call_closure(clo, [Ref(Cell(tag(x)))]) for x in (A, B_)]
+                else:
+                    def h(ex):
+                        c = lambda x, y: ex.variant_name(dv(ex.call_closure(clo, [Ref(Cell(tag(x))), Ref(Cell(tag(y)))])))
+                        return [c(A, B_), c(B_, A), c(B_, C), c(A, C)]
+                outs = ex.explore(h, assume)
+                chk.paths += len(outs)
+                if not outs: raise Inconclusive(f'vacuity: tag sort closure explored no path; {ex.unsupported_paths[-1:]}')
+                tagn = f'tag-order/{kind}/{"-".join(map(str, lens))}'
+                for pc, (k, r) in outs:
+                    if k != 'ok':
+                        m = chk.prove(f'{tagn}/no-panic', pc, z3.BoolVal(True), extra=assume)
+                        if m is not None: native([text(m, names[0]), text(m, names[1])], f'the tag sort panics: {r}')
+                        continue
+                    differ = z3.Not(val_eq(ex, A, B_)) if len(names[0]) == len(names[1]) else z3.BoolVal(True)
+                    if by_key:
+                        m = chk.prove(f'{tagn}/distinct-names-have-distinct-keys', pc, z3.And(differ, val_eq(ex, r[0], r[1])), extra=assume)
+                        if m is not None: native([text(m, names[0]), text(m, names[1])], f'the tag sort key ({kind}) is the same for two different tag names')
+                    else:
+                        ab, ba, bc, ac = r
+                        m = chk.prove(f'{tagn}/distinct-names-never-compare-equal', pc, z3.And(differ, z3.BoolVal(ab == 'Equal')), extra=assume)
+                        if m is not None: native([text(m, names[0]), text(m, names[1])], f'the tag comparator ({kind}) calls two different tag names equal')
+                        flip = {'Less': 'Greater', 'Greater': 'Less', 'Equal': 'Equal'}
+                        m = chk.prove(f'{tagn}/antisymmetric', pc, z3.BoolVal(ba != flip[ab]), extra=assume)
+                        if m is not None: native([text(m, names[0]), text(m, names[1])], f'the tag comparator ({kind}) is not antisymmetric: {ab} / {ba}')
+                        m = chk.prove(f'{tagn}/transitive', pc, z3.BoolVal(ab == 'Less' and bc == 'Less' and ac != 'Less'), extra=assume)
+                        if m is not None: native([text(m, n_) for n_ in names], f'the tag comparator ({kind}) is not transitive')
+    finally:
+        ex.models = saved
+    chk.bounds['tag_names'] = 'two / three tag names of 1..3 printable ASCII bytes each (symbolic) through the sort closure of gen_openapi'
+
+
 def before_finish(chk):
     document_witness(chk)
     document_version_flow(chk)
+    tag_order(chk)
 
 
 def run(tier, replay_file=None):
